@@ -47,11 +47,14 @@ def stream_of(fn) -> list:
     return out
 
 
-def blocks_of(scfg) -> list:
+def blocks_of(scfg, bcmap=None) -> list:
     begin = {name: getattr(b, "begin", -9) for name, b in scfg.graph.items()}
     out = []
     for name, b in scfg.graph.items():
-        out.append({"b": getattr(b, "begin", -9), "e": getattr(b, "end", -9), "tg": [begin.get(t, -7) for t in b._jump_targets], "name": name})
+        rec = {"b": getattr(b, "begin", -9), "e": getattr(b, "end", -9), "tg": [begin.get(t, -7) for t in b._jump_targets], "name": name}
+        if bcmap is not None and hasattr(b, "get_instructions"):
+            rec["ins"] = [int(i.offset) for i in b.get_instructions(bcmap)]      # what the block hands out as its content
+        out.append(rec)
     out.sort(key=lambda r: r["b"])
     return out
 
@@ -74,7 +77,9 @@ def record_function(ident: str, fn) -> dict:
     rec = {"id": ident, "stream": stream_of(fn), "blocks": [], "exc": ""}
     try:
         flow = ByteFlow.from_bytecode(fn)
-        rec["blocks"] = blocks_of(flow.scfg)
+        from numba_scfg.core.datastructures.scfg import SCFG
+
+        rec["blocks"] = blocks_of(flow.scfg, SCFG.bcmap_from_bytecode(flow.bc))
     except Exception as e:
         rec["exc"] = exc_sig(e)
         return [rec]
